@@ -348,6 +348,44 @@ def concurrent_creates(ctx):
                       % (v, m["schedule"], m["kill"], e.get("s"), e["who"], e["p"]), {"trace": t, "meta": m})
 
 
+def kernel_crashes(ctx):
+    """Pidfile.create() in a real child process killed on entering its n-th system call of each kind (strace fault
+    injection), with the pid directory on the same and on another file system than the temporary directory; fresh path
+    and stale path.  Judged by specs/PidfileConcTrace.tla (content classes: 0 absent, 1 the creator's complete pid,
+    2 the stale owner's complete pid, anything else is partial content)."""
+    from drivers import pidfile_kernel as pk
+    if not pk.available():
+        ctx.assumptions.append("strace / /dev/shm not available: kernel-level crash points skipped")
+        return
+    calls = pk.CALLS.split(",")
+    places = [("/dev/shm/verif_pk_%d" % os.getpid(), os.path.join(pk.SCRATCH, "tmp"), "other-fs"),
+              (os.path.join(pk.SCRATCH, "piddir"), os.path.join(pk.SCRATCH, "tmp"), "same-fs")]
+    jobs = [(c, n, st, pl) for pl in places for c in calls for n in ((1, 2, 3) if ctx.quick else (1, 2, 3, 4, 5)) for st in (False, True)]
+    with ThreadPoolExecutor(max_workers=8) as ex:
+        res = list(ex.map(lambda j: pk.run(j[0], j[1], j[3][0], j[3][1], j[2]), jobs))
+    import shutil
+    shutil.rmtree(places[0][0], ignore_errors=True)
+    traces, metas = [], []
+    for j, r in zip(jobs, res):
+        if not r["killed"]:
+            continue
+        traces.append({"ev": [{"e": "crash", "who": 1, "s": "%s#%d" % (j[0], j[1]), "p": r["cls"]}]})
+        metas.append({"call": j[0], "n": j[1], "stale": j[2], "place": j[3][2], "raw": r["raw"]})
+    if not traces:
+        raise RuntimeError("strace fault injection killed no child: kernel-level crash points not exercised")
+    verdicts, stats = tlc.validate_batch("PidfileConcTrace", "PidfileConcTrace.cfg", traces, name="PidfileKernel_C17")
+    ctx.add_traces(len(traces), stats)
+    ctx.coverage["kernel_level_crash_points"] = {"runs": len(jobs), "killed": len(traces),
+                                                 "calls_hit": sorted(set(m["call"] for m in metas))}
+    for t, m, (v, step) in zip(traces, metas, verdicts):
+        if v == "ok":
+            continue
+        ctx.violation("C17/%s/kernel-crash/%s,%s" % (v, m["place"], "stale" if m["stale"] else "fresh"),
+                      "%s: create() killed on entering %s #%d (%s, pid directory on %s): the path holds %r"
+                      % (v, m["call"], m["n"], "stale file" if m["stale"] else "fresh path", m["place"], m["raw"]),
+                      {"trace": t, "meta": m})
+
+
 def c17(ctx):
     rng = ctx.rng
     os.makedirs(SCRATCH, exist_ok=True)
@@ -384,6 +422,7 @@ def c17(ctx):
         ctx.coverage["crashes_injected"] = sum(1 for t in traces for e in t if e["e"] == "crash")
         judge(ctx, traces, metas)
         concurrent_creates(ctx)
+        kernel_crashes(ctx)
         from props import pidfile_real
         pidfile_real.real_side(ctx)
         toctou_demo(ctx)
